@@ -267,6 +267,16 @@ func genParams(rng *rand.Rand) paramSet {
 		case 1:
 			rng.Shuffle(len(p.Reward), func(i, j int) { p.Reward[i], p.Reward[j] = p.Reward[j], p.Reward[i] })
 		}
+	case w >= 97:
+		// outside the domain as the rule is written today (a negative amount): the real validators decide; should one of
+		// their routes let it through, the schedule of the OTHER denominations still has to be kept
+		p.Shape = "negative-amount"
+		for _, d := range pickDistinct(rng, holdable, 2+rng.Intn(2)) {
+			p.Reward = append(p.Reward, rc{d, genAmt(rng)})
+		}
+		sortRC(p.Reward)
+		i := rng.Intn(len(p.Reward))
+		p.Reward[i].Amt = p.Reward[i].Amt.Neg().Sub(sdk.OneInt())
 	default:
 		p.Shape = "odd-denom"
 		for _, d := range pickDistinct(rng, holdable, rng.Intn(3)) {
